@@ -418,3 +418,37 @@ SUBS = [
     Sub('entry', check_entry, enumerate=entry_cases, shards_quick=2, shards_thorough=2),
     Sub('target', check_target, strategy=target_strategy, quick=1500, thorough=100000, shards_quick=8),
 ]
+
+
+# --------------------------------------------------------------------------- listed findings (own signatures)
+
+LISTED = [
+    ('escaped-non-ascii-destroyed', r'a{content:"\ä"} .\ä{top:0}', 'ascii'),
+    ('codec-not-injective', 'a{content:"¥ ‾"}', 'shift_jis'),
+]
+
+
+def listed_cases(tier):
+    for tag, text, enc in LISTED:
+        yield {'tag': tag, 'text': text, 'enc': enc}
+
+
+def check_listed(case, ctx):
+    saved = cssutils.log.raiseExceptions
+    cssutils.log.raiseExceptions = False
+    try:
+        with Prefs(**LOSSLESS):
+            sheet = cssutils.parseString(case['text'])
+            before = P.p_sheet(sheet, resolved=True)
+            sheet.encoding = case['enc']
+            data = sheet.cssText
+            after = P.p_sheet(cssutils.parseString(data), resolved=True)
+    finally:
+        cssutils.log.raiseExceptions = saved
+    ctx.case([case['text'], case['enc']], True, case)
+    strip = lambda p: tuple(x for x in p if x[0] != 'charset')  # noqa: E731
+    if strip(after) != strip(before):
+        raise Violation('listed:' + case['tag'], f'{case["text"]!r} in {case["enc"]}: written {data!r}; {P.first_diff(strip(after), strip(before))}')
+
+
+SUBS.append(Sub('listed', check_listed, enumerate=listed_cases, shards_quick=1, shards_thorough=1))
